@@ -12,7 +12,6 @@ Proof. unfold allf. simpl. intros H. apply andb_true_iff in H. destruct H as [H1
 
 Section Final.
 Variable c : cfg.
-Hypothesis Hdone : donech c = true.
 Hypothesis Hnorep : norepeat c.
 Notation n := (nsteps c).
 Notation step := (step c).
@@ -25,10 +24,12 @@ Ltac use_after :=
   try match goal with
   | |- context [after c ?s ?i ?ok ?e] =>
       let H := fresh "HAC" in let sa := fresh "sa" in let E := fresh "Esa" in
-      pose proof (after_cases c Hdone Hnorep s i ok e) as H; remember (after c s i ok e) as sa eqn:E; clear E; destruct H
+      pose proof (after_cases c Hnorep s i ok e) as H; remember (after c s i ok e) as sa eqn:E; clear E; destruct H;
+      try (let F := fresh "Hfp" in destruct (fphase_cases c) as [F|F]; rewrite F in * )
   | H0 : context [after c ?s ?i ?ok ?e] |- _ =>
       let H := fresh "HAC" in let sa := fresh "sa" in let E := fresh "Esa" in
-      pose proof (after_cases c Hdone Hnorep s i ok e) as H; remember (after c s i ok e) as sa eqn:E; clear E; destruct H
+      pose proof (after_cases c Hnorep s i ok e) as H; remember (after c s i ok e) as sa eqn:E; clear E; destruct H;
+      try (let F := fresh "Hfp" in destruct (fphase_cases c) as [F|F]; rewrite F in * )
   end.
 
 Ltac start_step HI Hs :=
@@ -107,7 +108,9 @@ Definition qnode_gen (i : nat) (x : node) (B : nstatus -> Prop) (O : nat -> Prop
   | PPost =>
       match st x with
       | NRunning => ran_ok x /\ setup_fails c i = false
-      | NError => setup_fails c i = true
+      | NError => setup_fails c i = false ->
+                  dry c = false /\ allf (outs x) /\ length (outs x) = att x /\
+                  att x = S (rc x) /\ rc x = rlimit (steps c i)
       | NCancel => False
       | _ => True
       end
@@ -201,12 +204,21 @@ Proof.
   - (* WAfter, status already terminal: impossible while quiet *)
     exfalso. assert (Hrun : st (nd s i) = NRunning) by (apply (HG Hc0); rewrite M; reflexivity).
     intuition congruence.
+  - exfalso. assert (Hrun : st (nd s i) = NRunning) by (apply (HG Hc0); rewrite M; reflexivity).
+    intuition congruence.
   - (* WAfter, retry *)
     destruct Q3 as [Q3 Q4]. destruct (dry c) eqn:Edry; [intuition discriminate|].
     destruct Q4 as (fs & Q4 & Q5 & Q6).
     split; [auto|]. split; [intros _; apply Q2; left; congruence|].
     rewrite Q4. split; [apply allf_cons_false; assumption|]. split; [rewrite <- Q4; assumption|assumption].
-  - (* WAfter, retries exhausted *)
+  - (* WAfter, retries exhausted (done channel) *)
+    destruct Q3 as [Q3 Q4]. destruct (dry c) eqn:Edry; [intuition discriminate|].
+    destruct Q4 as (fs & Q4 & Q5 & Q6).
+    split; [auto|]. split; [intros _; apply Q2; left; congruence|].
+    intros _. split; [reflexivity|]. rewrite Q4. split; [apply allf_cons_false; assumption|].
+    split; [rewrite <- Q4; assumption|].
+    destruct HDi as [Hrc [HDi|[_ HDi]]]; [|congruence]. split; [assumption|lia].
+  - (* WAfter, retries exhausted (no done channel) *)
     destruct Q3 as [Q3 Q4]. destruct (dry c) eqn:Edry; [intuition discriminate|].
     destruct Q4 as (fs & Q4 & Q5 & Q6).
     split; [auto|]. split; [intros _; apply Q2; left; congruence|].
@@ -215,7 +227,7 @@ Proof.
     destruct HDi as [Hrc [HDi|[_ HDi]]]; [|congruence]. split; [assumption|lia].
   - (* WFinish *)
     split; [auto|]. split; [intros _; apply Q2; left; congruence|].
-    destruct (st (nd s i)); auto; try exact Q3; try (exfalso; intuition discriminate). intros Hsf. congruence.
+    destruct (st (nd s i)); auto; try exact Q3; try (exfalso; intuition discriminate).
 Qed.
 
 Lemma qinv_init : QInv (init c).
@@ -412,7 +424,7 @@ Theorem exact_attempts s : Reach c s -> quiet s -> pc s = LDone -> dry c = false
 Proof.
   intros Hr Hq Hpc Hdry i Hi. unfold runnable.
   destruct (final_states s Hr Hq Hpc i Hi) as (H1 & H2 & H3 & H4 & H5).
-  destruct (C03_bounds c Hdone Hnorep s i Hr) as [Hb1 Hb2].
+  destruct (C03_bounds c Hnorep s i Hr) as [Hb1 Hb2].
   destruct (blocked s i) eqn:Eb; cbn [negb andb].
   - split; [discriminate|]. intros _. apply (H1 eq_refl).
   - destruct (pre (steps c i)) eqn:Ep; cbn [andb].
